@@ -711,3 +711,5 @@ fn any_align() -> Option<FormatAlign> {
     }
 }
 
+
+
